@@ -30,6 +30,7 @@ type ResultSpec struct {
 	Code     uint16              `json:"code"`
 	TsNano   int64               `json:"ts_nano"`
 	ZoneMin  int                 `json:"zone_min"` // offset east of UTC in minutes; 0 = UTC
+	Local    bool                `json:"local,omitempty"` // the time.Time carries time.Local (the zone of the TZ the harness runs under)
 	FarYear  int                 `json:"far_year,omitempty"` // ≠ 0: the timestamp is 2 January of that year (outside the int64-nanosecond range; only gob can carry it, JSON refuses years > 9999)
 	Latency  int64               `json:"latency"`
 	BytesOut uint64              `json:"bytes_out"`
@@ -50,6 +51,9 @@ func (s ResultSpec) ToResult() vegeta.Result {
 		Attack: s.Attack, Seq: s.Seq, Code: s.Code, Timestamp: time.Unix(0, s.TsNano).In(loc),
 		Latency: time.Duration(s.Latency), BytesOut: s.BytesOut, BytesIn: s.BytesIn, Error: s.Error,
 		Body: s.Body, Method: s.Method, URL: s.URL,
+	}
+	if s.Local {
+		r.Timestamp = r.Timestamp.In(time.Local)
 	}
 	if s.FarYear != 0 {
 		r.Timestamp = time.Date(s.FarYear, 1, 2, 3, 4, 5, 6, time.UTC)
@@ -212,7 +216,9 @@ func InterResult(r *kit.Rng, seq uint64, bodySize int) ResultSpec {
 		s.TsNano = 1700000000000000000 + r.Range(0, 60000000000)
 	}
 	if r.Chance(0.3) {
-		s.ZoneMin = int(r.PickI64([]int64{60, -60, 330, -480, 14 * 60, -12 * 60, 1}))
+		s.ZoneMin = int(r.PickI64([]int64{60, -60, 330, -480, 14 * 60, -12 * 60, 1, 120, -585}))
+	} else if r.Chance(0.15) {
+		s.Local = true
 	}
 	switch r.Pick(8) {
 	case 0:
